@@ -134,6 +134,74 @@ func evalLin(p *Prog, v ssa.Value, replyBuf *ssa.Alloc, d int) linExpr {
 	return linExpr{Why: fmt.Sprintf("unrecognised term %T in the size estimate", v)}
 }
 
+// budgetInfo describes a stop test of the form `entrySize > budget`, where budget starts as limit - K0 and is
+// decreased by the entry size after every entry.
+type budgetInfo struct {
+	phi   *ssa.Phi
+	entry ssa.Value // the tested entry size
+	init  ssa.Value // the initial budget expression
+	k0    int64     // constant subtracted from the limit in the initial budget
+	okDec bool      // the decrement subtracts the same size that is tested
+}
+
+func budgetForm(p *Prog, bo *ssa.BinOp) *budgetInfo {
+	phi, ok := unwrap(bo.Y).(*ssa.Phi)
+	if !ok || !inCycle(phi.Block()) {
+		return nil
+	}
+	est := evalLin(p, bo.X, nil, 0)
+	if !est.OK || (est.PadName+est.RawName == 0 && !est.OtherLen) {
+		return nil
+	}
+	bi := &budgetInfo{phi: phi, entry: bo.X}
+	seen := map[ssa.Value]bool{}
+	var visit func(e ssa.Value, depth int)
+	visit = func(e ssa.Value, depth int) {
+		e = unwrap(e)
+		if e == ssa.Value(phi) || seen[e] {
+			return // unchanged on this path (an iteration that skipped the entry)
+		}
+		seen[e] = true
+		if sub, ok := e.(*ssa.BinOp); ok && sub.Op == token.SUB {
+			if x := unwrap(sub.X); x == ssa.Value(phi) || seen[x] {
+				d := evalLin(p, sub.Y, nil, 0)
+				bi.okDec = d.OK && d.K == est.K && d.PadName == est.PadName && d.RawName == est.RawName && d.OtherLen == est.OtherLen
+				return
+			}
+		}
+		if ph, ok := e.(*ssa.Phi); ok && depth < 3 && inCycle(ph.Block()) {
+			for _, e2 := range ph.Edges {
+				visit(e2, depth+1)
+			}
+			return
+		}
+		bi.init = e
+	}
+	for _, e := range phi.Edges {
+		visit(e, 0)
+	}
+	if bi.init == nil {
+		return nil
+	}
+	// init = <limit> - K0
+	if sub, ok := unwrap(bi.init).(*ssa.BinOp); ok && sub.Op == token.SUB {
+		if k, isC := constInt(sub.Y); isC {
+			bi.k0 = k
+			bi.init = sub.X
+			return bi
+		}
+	}
+	return nil
+}
+
+func runC26EntrySizeB(c *Ctx, h *ssa.Function, name string, stopIf *ssa.If, bud *budgetInfo) {
+	c26Budget = bud
+	runC26EntrySize(c, h, name, stopIf)
+	c26Budget = nil
+}
+
+var c26Budget *budgetInfo
+
 func runC26EntrySize(c *Ctx, h *ssa.Function, name string, stopIf *ssa.If) {
 	p := c.P
 	const P = "C26"
@@ -162,14 +230,14 @@ func runC26EntrySize(c *Ctx, h *ssa.Function, name string, stopIf *ssa.If) {
 		return
 	}
 	// per-entry bytes: each distinct in-loop event once, maximised over paths; trailer: events after the loop on OK paths
-	maxEntry, maxTail := int64(-1), int64(-1)
+	maxEntry, maxTail, maxHead := int64(-1), int64(-1), int64(-1)
 	nameToks := 0
 	for _, path := range bt.Paths {
 		if len(path) < 2 || path[0].Kind != "U32" || path[0].Const == nil || *path[0].Const != 0 {
 			continue
 		}
 		counted := map[ssa.Instruction]bool{}
-		var entry, tail int64
+		var entry, tail, head int64
 		names := 0
 		inLoopSeen := false
 		unknown := false
@@ -207,6 +275,13 @@ func runC26EntrySize(c *Ctx, h *ssa.Function, name string, stopIf *ssa.If) {
 					continue
 				}
 				tail += sz
+			} else if i > 0 {
+				// bytes between the status word and the first entry
+				if sz, known := tokFixedSize[tk.Kind]; known {
+					head += sz
+				} else {
+					unknown = true
+				}
 			}
 		}
 		if unknown || !inLoopSeen {
@@ -218,9 +293,38 @@ func runC26EntrySize(c *Ctx, h *ssa.Function, name string, stopIf *ssa.If) {
 		if tail > maxTail {
 			maxTail = tail
 		}
+		if head > maxHead {
+			maxHead = head
+		}
 	}
 	if maxEntry < 0 || maxTail < 0 {
 		c.undecided(P, "entry-size", key, p.instrPos(stopIf), "no NFS3_OK reply path with at least one entry in the trace")
+		return
+	}
+	if bud := c26Budget; bud != nil {
+		// budget form: sum of tested sizes <= limit - K0; the reply holds head + entries + tail bytes after
+		// the status word
+		est := evalLin(p, bud.entry, nil, 0)
+		var why []string
+		if !bud.okDec {
+			why = append(why, "the budget is not decreased by the size that was tested")
+		}
+		if !est.OtherLen {
+			if est.PadName < nameToks {
+				why = append(why, fmt.Sprintf("the name is counted without its padding to 4 bytes (%d padded term(s) for %d name(s))", est.PadName, nameToks))
+			}
+			if est.K < maxEntry {
+				why = append(why, fmt.Sprintf("an entry is counted as %d fixed bytes but takes %d (besides the padded name)", est.K, maxEntry))
+			}
+		}
+		if need := maxHead + maxTail; bud.k0 < need {
+			why = append(why, fmt.Sprintf("the budget sets aside %d bytes for the fixed part of the reply, which takes %d bytes before the first entry and %d after the last (status word excluded): %d needed", bud.k0, maxHead, maxTail, need))
+		}
+		if len(why) == 0 {
+			c.ok(P, "entry-size", key, p.instrPos(stopIf), fmt.Sprintf("budget limit - %d covers head %d + trailer %d; entries counted as %d + pad4(name) >= %d", bud.k0, maxHead, maxTail, est.K, maxEntry))
+		} else {
+			c.bad(P, "entry-size", key, p.instrPos(stopIf), name+" admits an entry whose encoding does not fit: "+strings.Join(why, "; ")+" — the reply can exceed the client's limit by the difference")
+		}
 		return
 	}
 	est := evalLin(p, bo.X, bt.Buf, 0)
